@@ -55,6 +55,20 @@ def V():
     return voltage
 
 
+class BadReturn(Exception):
+    """the implementation returned something that is not a real array of the expected shape"""
+
+
+def canon(y, shape, what):
+    if not isinstance(y, np.ndarray):
+        raise BadReturn("%s returned a %s, not an ndarray" % (what, type(y).__name__))
+    if tuple(y.shape) != tuple(shape):
+        raise BadReturn("%s returned shape %s for an input of shape %s" % (what, tuple(y.shape), tuple(shape)))
+    if y.dtype.kind not in "fiu":
+        raise BadReturn("%s returned dtype %s" % (what, y.dtype))
+    return y
+
+
 # --------------------------------------------------------------------------
 # flat encodings (mirror coq/C05/Run.v)
 # --------------------------------------------------------------------------
@@ -116,7 +130,8 @@ def impl_car(case):
     with warnings.catch_warnings():
         warnings.simplefilter("ignore")
         try:
-            return np.asarray(V().car(x, collection=coll, operator=OPS[case["op"]]), dtype=float)
+            shape = x.shape
+            return canon(V().car(x, collection=coll, operator=OPS[case["op"]]), shape, "car").astype(float)
         except IndexError:
             return "IndexError"
 
@@ -146,7 +161,8 @@ def oracle_car(case, y):
     if coll is not None:
         for c in np.unique(labels):
             sel = labels == c
-            ref = np.asarray(V().car(car_inputs(case)[0][sel].copy(), collection=None, operator=name), dtype=float)
+            xs = car_inputs(case)[0][sel].copy()
+            ref = canon(V().car(xs, collection=None, operator=name), xs.shape, "car").astype(float)
             if np.max(np.abs(ref - y[sel]), initial=0) > TOL * scale:
                 bad.append("car with groups differs from the per-group call with the same operator")
                 break
@@ -170,8 +186,10 @@ def impl_agc(case):
         x = x.astype({"f32": np.float32, "i64": np.int64}[case["dtype"]])
     wl = case["wl"]
     si = case["si"]
-    out, gain = V().agc(x.copy(), wl=wl, si=si, epsilon=case["en"] / case["ed"])
-    return np.asarray(out, dtype=float), np.asarray(gain, dtype=float)
+    r = V().agc(x.copy(), wl=wl, si=si, epsilon=case["en"] / case["ed"])
+    if not (isinstance(r, tuple) and len(r) == 2):
+        raise BadReturn("agc returned %s, not a (data, gain) pair" % type(r).__name__)
+    return canon(r[0], x.shape, "agc (data)").astype(float), canon(r[1], x.shape, "agc (gain)").astype(float)
 
 
 def oracle_agc(case, out, gain):
@@ -265,9 +283,10 @@ def run_grouped_filter(ctx, case):
         with warnings.catch_warnings():
             warnings.simplefilter("ignore")
             try:
-                return np.asarray(f(xx.copy(), **k), dtype=float)
+                r = f(xx.copy(), **k)
             except Exception as e:      # e.g. scipy's padlen check on a small group
                 return type(e).__name__
+            return canon(r, xx.shape, case["fn"]).astype(float)      # BadReturn propagates to the caller
 
     with Spy(case["fn"]) as spy:
         y = call(getattr(v, case["fn"]), x, collection=coll, **kw)
@@ -399,9 +418,10 @@ def destripe_call(case, x, labels, tracer=None):
             with tracer:
                 return destripe_call(case, x, labels)
         if case["lfp"]:
-            return v.destripe_lfp(x.copy(), case["fs"], h=h, channel_labels=lab, k_filter=case["k_filter"])
-        return v.destripe(x.copy(), case["fs"], h=h, neuropixel_version=nv, channel_labels=lab,
-                          k_filter=case["k_filter"])
+            return canon(v.destripe_lfp(x.copy(), case["fs"], h=h, channel_labels=lab, k_filter=case["k_filter"]),
+                         x.shape, "destripe_lfp")
+        return canon(v.destripe(x.copy(), case["fs"], h=h, neuropixel_version=nv, channel_labels=lab,
+                                k_filter=case["k_filter"]), x.shape, "destripe")
 
 
 def destripe_expected(case, x, labels, inside):
@@ -813,6 +833,9 @@ def gen_filter_cases(ctx):
         c = dict(base_f, seed=2000 + len(cases), vary=vary)
         c[vary] = val
         cases.append(c)
+    # fk: a group smaller than ntr_pad with ntr_tap=None (the taper length follows the per-group clamp of the padding)
+    for j, (coll, pad) in enumerate((([0] * 2 + [1] * 6, 4), ([3, 1, 3, 3, 1, 3, 3, 3, 3], 5), ([0] * 7 + [2] * 1, 3))):
+        cases.append(dict(base_f, seed=3000 + j, nc=len(coll), coll=coll, pad=pad, tap=None, vary="pad_gt_group"))
     return cases
 
 
@@ -986,6 +1009,8 @@ def run(ctx):
                 a = V().kfilt(xk.copy(), ntr_pad=pad, ntr_tap=0, lagc=lagc)
                 padded = np.r_[np.flipud(xk[:pad]), xk, np.flipud(xk[-pad:])]
                 b = V().kfilt(padded.copy(), ntr_pad=0, ntr_tap=0, lagc=lagc)
+                if not (isinstance(a, np.ndarray) and isinstance(b, np.ndarray) and a.ndim == 2 and b.ndim == 2):
+                    raise BadReturn("kfilt returned %s / %s" % (type(a).__name__, type(b).__name__))
                 npad = min(pad, nx)
                 b = b[npad:npad + nx]
         except Exception as e:
@@ -997,8 +1022,8 @@ def run(ctx):
             with warnings.catch_warnings():
                 warnings.simplefilter("ignore")
                 af = V().fk(xk.copy(), si=0.002, dx=1, vbounds=[2, 4], ntr_pad=pad, ntr_tap=0, lagc=None)
-            if af.shape != xk.shape:
-                ctx.fail("fk returned shape %s for an input of shape %s (ntr_pad=%d)" % (af.shape, xk.shape, pad),
+            if not isinstance(af, np.ndarray) or af.shape != xk.shape:
+                ctx.fail("fk returned shape %s for an input of shape %s (ntr_pad=%d)" % (np.shape(af), xk.shape, pad),
                          dict(case, fn="fk"), {"kind": "kfilt_pad_gt_nx" if pad > nx else "kfilt_shape"})
         except Exception as e:
             ctx.fail("fk with padding raised %r" % (e,), dict(case, fn="fk"),
@@ -1038,7 +1063,7 @@ def run(ctx):
     dmodel = model[len(model) - 2 * len(dcases):]
     dist["destripe_trace_compared"] = 0
     dist["destripe_trace_unobserved"] = 0
-    for k, case in enumerate(dcases):
+    def one_destripe(k, case):
         m, mtrace = dmodel[2 * k], dmodel[2 * k + 1]
         n_in = m[0]
         inside = m[1:1 + n_in]
@@ -1053,7 +1078,7 @@ def run(ctx):
             pre, exp = destripe_expected(case, x, case["labels"], inside)
         except Exception as e:
             ctx.fail("destripe raised %r" % (e,), desc, {"kind": "exception"})
-            continue
+            return
         dist["destripe_labels"] += 1
         if outside or case["labels"] is None or case.get("no_version"):
             nontrivial.add(json.dumps(desc, sort_keys=True))
@@ -1093,18 +1118,24 @@ def run(ctx):
                             "k_filter": case["k_filter"], "n_outside": len(outside), "outside_first": outside[:5],
                             "stage_trace": tracer.trace, "max_abs_out": float(np.max(np.abs(y)))})
 
+    for k, case in enumerate(dcases):
+        try:
+            one_destripe(k, case)
+        except Exception as e:
+            ctx.fail("destripe case could not be evaluated: %r" % (e,), dict(case), {"kind": "exception"})
+
     # ---- destripe (default k-filter, ntr_pad=60) with 50 / 60 / 61 channels inside the brain
     for n_inside in (50, 60, 61):
         lab = np.zeros(384, dtype=int)
         lab[n_inside:] = 3
         case = {"kind": "destripe_few_inside", "n_inside": n_inside}
-        h, nv = header_for("NP1")
         xx = np.random.default_rng(n_inside).standard_normal((384, 256)) * 1e-5
         try:
+            h, nv = header_for("NP1")
             with warnings.catch_warnings():
                 warnings.simplefilter("ignore")
                 yy = V().destripe(xx.copy(), 30000, h=h, neuropixel_version=1, channel_labels=lab)
-            if yy.shape != xx.shape:
+            if not isinstance(yy, np.ndarray) or yy.shape != xx.shape:
                 ctx.fail("destripe changed the shape", case, {"kind": "kfilt_pad_gt_nx" if n_inside < 60 else "shape"})
         except Exception as e:
             ctx.fail("destripe raised %r with %d channels inside the brain" % (e, n_inside), case,
@@ -1133,6 +1164,7 @@ def run(ctx):
                 ("kfilt_lagc_collection", lambda a: v.kfilt(a, lagc=4, collection=np.array([0, 1] * 15))),
                 ("fk_lagc_no_collection", lambda a: v.fk(a, si=0.002, dx=1, vbounds=[2, 4], lagc=0.01)),
                 ("car_collection", lambda a: v.car(a, collection=np.array([0, 1] * 15))),
+                ("car_no_collection", lambda a: v.car(a)),
                 ("destripe", lambda a: v.destripe(np.tile(a, (13, 8))[:384], 30000, neuropixel_version=1))):
             a = rgo.standard_normal((30, 16))
             a0 = a.copy()
@@ -1140,6 +1172,8 @@ def run(ctx):
                 warnings.simplefilter("ignore")
                 r = call(a)
             r0 = r[0] if isinstance(r, tuple) else r
+            if not isinstance(r0, np.ndarray):
+                raise BadReturn("%s returned %s" % (name, type(r0).__name__))
             obs[name] = {"argument_modified": bool(not np.array_equal(a, a0)),
                          "result_aliases_argument": bool(np.shares_memory(r0, a))}
         ai = np.array([[1, -2, 3], [4, 0, 6]])
@@ -1151,6 +1185,14 @@ def run(ctx):
     except Exception as e:
         obs["error"] = repr(e)
     ctx.coverage["observations_argument_mutation"] = obs
+    for name in ("car_collection", "car_no_collection", "kfilt_lagc_collection", "destripe"):
+        o = obs.get(name)
+        if o and (o["argument_modified"] or o["result_aliases_argument"]):
+            ctx.disagree("%s modifies the caller's array or returns a view of it (the model function is pure; only agc, "
+                         "and kfilt / fk without a collection, are known to work in place)" % name,
+                         {"kind": "mutation", "call": name, "observed": o})
+    if "error" in obs:
+        ctx.fail("probing the argument handling raised %s" % obs["error"], {"kind": "mutation"}, {"kind": "exception"})
 
     # ---- measurements (quantitative clauses)
     try:
@@ -1158,7 +1200,10 @@ def run(ctx):
     except Exception as e:
         ctx.fail("measurement run raised %r" % (e,), {"kind": "measure"}, {"kind": "exception"})
 
-    header_sequence(ctx, ex, dist)
+    try:
+        header_sequence(ctx, ex, dist)
+    except Exception as e:
+        ctx.fail("header sequence raised %r" % (e,), {"kind": "header_sequence"}, {"kind": "exception"})
 
     return common.finish(
         ctx, TRUSTED,
@@ -1177,6 +1222,14 @@ def run(ctx):
 
 
 def replay(ctx, data):
+    try:
+        return _replay(ctx, data)
+    except Exception as e:          # the recorded input makes the implementation raise / return garbage
+        print("implementation could not be evaluated on the recorded input:", repr(e))
+        return 1
+
+
+def _replay(ctx, data):
     inp = data.get("input") or (data.get("correspondence_disagreements") or [{}])[0].get("input")
     if not inp:
         print(json.dumps(data, indent=1)[:3000])
